@@ -307,13 +307,26 @@ class extract_visitor(NodeVisitor):
         else:
             items = node.items
 
-        for it in items:
+        for i, it in enumerate(items):
+            self.visit(it.context_expr)
             if it.optional_vars:
+                # the name is bound before the next item is entered
+                if i + 1 < len(items):
+                    loc = np(items[i + 1].context_expr)
+                else:
+                    loc = np(node.body[0])
                 for nn, _idx in get_indexes_for_target(it.optional_vars, [], []):
-                    name = nn  # type: ast.Name # type: ignore[assignment]
-                    self.flow.add_name(AssignedName(name.id, np(node.body[0]), np(name), node))
+                    if isinstance(nn, Attribute):
+                        self.top.add_attr_assign(self.flow.scope, nn, node)
+                    elif isinstance(nn, UNSUPPORTED_ASSIGMENTS):
+                        continue
+                    else:
+                        name = nn  # type: ast.Name # type: ignore[assignment]
+                        self.flow.add_name(AssignedName(name.id, loc, np(name), node))
+                self.visit(it.optional_vars)
 
-        self.generic_visit(node)
+        for n in node.body:
+            self.visit(n)
 
     visit_AsyncWith = visit_With
 
